@@ -22,7 +22,6 @@ var DefaultModelOptions = []resource.Option{
 	WithActiveModeOption(resource.WithNoDuplicates()),
 	WithModeOption(resource.WithNoDuplicates()),
 	WithClock(clock.Real()),
-	WithRNG(rand.New(rand.NewSource(rand.Int63()))),
 }
 var defaultInitialVoltage float32 = 240
 
@@ -104,6 +103,8 @@ func WithRNG(rng *rand.Rand) resource.Option {
 func calcModelArgs(opts ...resource.Option) modelArgs {
 	args := new(modelArgs)
 	args.apply(DefaultModelOptions...)
+	// each model gets a random source of its own: a *rand.Rand is not safe for use by two models at once
+	args.apply(WithRNG(rand.New(rand.NewSource(rand.Int63()))))
 	args.apply(opts...)
 	return *args
 }
